@@ -1534,11 +1534,22 @@ class C04(Check):
     def _pick(rng, gens):
         r = rng.random()
         acc = 0.0
+        case = None
         for g, w in gens:
             acc += w
             if r < acc:
-                return g(rng)
-        return gens[-1][0](rng)
+                case = g(rng)
+                break
+        if case is None:
+            case = gens[-1][0](rng)
+        # one script entry per (stage, type, token): the first one counts on both sides
+        seen, sc = set(), []
+        for e in case.get("script", []):
+            if (e[0], e[1], e[2]) not in seen:
+                seen.add((e[0], e[1], e[2]))
+                sc.append(e)
+        case["script"] = sc
+        return case
 
     def model_line(self, case):
         k = case["kind"]
